@@ -17,7 +17,9 @@
           hm     z a=version b=k c=n s=frag|ack    Schedule._handle_msg returned from an RP|0404
                                                fragment / an I|0404 write acknowledgement (a = -4)
           heard6   a=counter                   an overheard RP|0006 was dispatched
-          age                                  more than 3 minutes passed
+          age      a=seconds slept (0: measured)  more than 3 minutes have passed since the controller last sent an
+                                               RP|0006 (the harness checks that against its own clock before logging)
+          wait     a=seconds                   time passed, less than that (not folded)
           mainend / fin                        quiescence after the main phase / at the end
 
    Two things are folded over the events, both with the operators of SchedXferCore:
@@ -29,8 +31,8 @@ EXTENDS SchedXferCore, Json, IOUtils
 
 Traces == JsonDeserialize(IOEnv.TRACE_FILE)
 
-VARIABLES tid, l, SF, ST, driftF, driftT, cv, acc, armed, since, act, info, leftAtMain, fail
-vars == <<tid, l, SF, ST, driftF, driftT, cv, acc, armed, since, act, info, leftAtMain, fail>>
+VARIABLES tid, l, SF, ST, driftF, driftT, cv, acc, armed, since, cfresh, stale0, act, info, leftAtMain, fail
+vars == <<tid, l, SF, ST, driftF, driftT, cv, acc, armed, since, cfresh, stale0, act, info, leftAtMain, fail>>
 
 ZS == {1, 2, 3}
 Ev(t) == Traces[t].ev
@@ -39,6 +41,9 @@ Init == /\ tid \in 1..Len(Traces) /\ l = 1
         /\ SF = GInit(ZS) /\ ST = GInit(ZS) /\ driftF = FALSE /\ driftT = FALSE
         /\ cv = [z \in ZS |-> 0] /\ acc = [z \in ZS |-> {0}] /\ armed = [z \in ZS |-> FALSE]
         /\ since = [z \in ZS |-> {0}] /\ act = [z \in ZS |-> FALSE]
+        \* the contract's freshness window (SchedXfer.tla, ct.fresh / Expired): is the latest change counter the controller
+        \* sent young enough to go by?  stale0[z]: it was not when zone z's transfer was called
+        /\ cfresh = FALSE /\ stale0 = [z \in ZS |-> FALSE]
         /\ info = [z \in ZS |-> [op |-> "none", exit |-> "none", xq |-> "none", wr |-> NoneV, tid |-> 0, cause |-> ""]]
         /\ leftAtMain = 0
         /\ fail = <<>>
@@ -104,7 +109,11 @@ Clauses(e) ==
                   THEN IF e.b \in acc[z] THEN <<>>
                        ELSE IF e.b = Mixed THEN << <<l, "C18b_mixed", "get", "", "">> >>
                        ELSE IF e.b = NoneV THEN << <<l, "C18a_none", "get", "", "">> >>
-                       ELSE << <<l, "C18a_stale", "get", IF armed[z] THEN "read" ELSE "cached", "">> >>
+                       \* detail: the transfer read a counter / went by a cached one inside the freshness window / went
+                       \* by one older than the window ("expired": no counter was read during the transfer, and the schedule is
+                       \* not the one the controller has held since the call)
+                       ELSE << <<l, "C18a_stale", "get",
+                                 IF armed[z] THEN "read" ELSE IF stale0[z] THEN "expired" ELSE "cached", "">> >>
                   ELSE IF e.b = info[z].wr THEN <<>>
                        ELSE << <<l, "C18a_set_result", "set", "", "">> >>)
             \o
@@ -137,13 +146,17 @@ Step ==
        /\ act' = CASE e.k \in {"start", "fu"} -> [act EXCEPT ![z] = TRUE]
                    [] e.k = "end" -> [act EXCEPT ![z] = FALSE]
                    [] OTHER -> act
-       /\ acc' = CASE e.k \in {"start", "fu"} -> [acc EXCEPT ![z] = since[z]]
+       /\ acc' = CASE e.k \in {"start", "fu"} -> [acc EXCEPT ![z] = IF cfresh THEN since[z] ELSE {cv[z]}]
                    [] e.k = "vread" -> [y \in ZS |-> IF act[y] /\ ~armed[y] THEN {cv[y]} ELSE acc[y]]
                    [] e.k = "bump" -> [acc EXCEPT ![z] = IF act[z] THEN @ \cup {e.a} ELSE @]
                    [] OTHER -> acc
        /\ armed' = CASE e.k \in {"start", "fu"} -> [armed EXCEPT ![z] = FALSE]
                      [] e.k = "vread" -> [y \in ZS |-> armed[y] \/ act[y]]
                      [] OTHER -> armed
+       /\ cfresh' = CASE e.k = "vread" -> TRUE
+                      [] e.k = "age" -> FALSE
+                      [] OTHER -> cfresh
+       /\ stale0' = IF e.k \in {"start", "fu"} THEN [stale0 EXCEPT ![z] = ~cfresh] ELSE stale0
        /\ since' = CASE e.k = "vread" -> [y \in ZS |-> {cv[y]}]
                      [] e.k = "bump" -> [since EXCEPT ![z] = @ \cup {e.a}]
                      [] OTHER -> since
